@@ -208,6 +208,12 @@ class ConcreteWorld(World):
         self.values = values            # leaf name -> float
         self.tables = tables or {}      # fn name -> {'entries': [[args], value], 'else': value}
         self.violated_assumptions = []
+        # float comparisons natively: relative to the operands AND to the largest leaf/table magnitude of this run
+        # (sums that nearly cancel carry the rounding error of their largest term)
+        mags = [abs(float(v)) for v in values.values()]
+        for t in self.tables.values():
+            mags += [abs(float(e[1])) for e in t.get('entries', [])]
+        self.scale = max(mags) if mags else 1.0
 
     def real(self, name, lo=None, hi=None, lo_strict=False, hi_strict=False, nonzero=False):
         v = float(self.values.get(name, 0.0 if lo is None else lo))
@@ -225,9 +231,16 @@ class ConcreteWorld(World):
 
         def call(*args):
             args = [float(a) for a in args]
+            # nearest table entry within the tolerance (exact matches first): two symbolic arguments whose model values
+            # differ by less than the tolerance must not be conflated
+            best = None
             for eargs, val in entries:
                 if len(eargs) == len(args) and all(_close(x, y) for x, y in zip(eargs, args)):
-                    return val
+                    dist = sum(abs(x - y) for x, y in zip(eargs, args))
+                    if best is None or dist < best[0]:
+                        best = (dist, val)
+            if best is not None:
+                return best[1]
             # deterministic smooth fallback so that unseen arguments still give a *function*
             h = default
             for n, a in enumerate(args):
@@ -240,9 +253,9 @@ class ConcreteWorld(World):
     def eq(self, a, b):
         if isinstance(a, (str, type(None))) or isinstance(b, (str, type(None))):
             return a == b
-        return _close(a, b)
+        return _close(a, b) or abs(float(a) - float(b)) <= REL_TOL * self.scale
 
-    def le(self, a, b): return float(a) <= float(b) + ABS_TOL + REL_TOL * max(abs(float(a)), abs(float(b)))
+    def le(self, a, b): return float(a) <= float(b) + ABS_TOL + REL_TOL * max(abs(float(a)), abs(float(b)), self.scale)
     def lt(self, a, b): return float(a) < float(b)
     def And(self, *cs): return all(bool(c) for c in cs)
     def Or(self, *cs): return any(bool(c) for c in cs)
